@@ -126,7 +126,39 @@ func NearPreds(thorough bool) []*Spec {
 			out = append(out, TempSpec(id, t))
 		}
 	}
-	return out
+	// boundary shift between id and anchor: whatever bytes a hash is fed for "id, then anchor", a variable-length
+	// anchor encoding that follows a variable-length id without a separator lets the id swallow the first bytes of the
+	// encoding. For two plausible encodings (seconds and nanoseconds as two varints; nanoseconds since the epoch as one
+	// varint) and every split point, the partner predicate whose id ends with the swallowed bytes and whose anchor is
+	// what the remaining bytes decode to.
+	for _, t := range []time.Time{model.T0, model.T1} {
+		out = append(out, TempSpec("a", t))
+		b1 := make([]byte, 2*binary.MaxVarintLen64)
+		n := binary.PutVarint(b1, t.Unix())
+		n += binary.PutVarint(b1[n:], int64(t.Nanosecond()))
+		b1 = b1[:n]
+		for k := 1; k < len(b1)-1; k++ {
+			sec, n1 := binary.Varint(b1[k:])
+			if n1 <= 0 {
+				continue
+			}
+			nsec, n2 := binary.Varint(b1[k+n1:])
+			if n2 <= 0 || k+n1+n2 != len(b1) || nsec < 0 || nsec > 999999999 {
+				continue
+			}
+			out = append(out, TempSpec("a"+string(b1[:k]), time.Unix(sec, nsec).UTC()))
+		}
+		b2 := make([]byte, binary.MaxVarintLen64)
+		b2 = b2[:binary.PutVarint(b2, t.UnixNano())]
+		for k := 1; k < len(b2); k++ {
+			v, n1 := binary.Varint(b2[k:])
+			if n1 <= 0 || k+n1 != len(b2) {
+				continue
+			}
+			out = append(out, TempSpec("a"+string(b2[:k]), time.Unix(0, v).UTC()))
+		}
+	}
+	return Dedup(out)
 }
 
 func NearLits(thorough bool) []*Spec {
